@@ -228,6 +228,13 @@ class Built:
                 elif k == "pre":
                     o.add_pretasks(*[self.allobjs[i] for i in op["ids"]])
                     out.append("ok")
+                elif k == "prefrom":
+                    # add_pretasks_from(donor): the pre-tasks the donor holds at this moment are added
+                    idx = {id(x): j for j, x in enumerate(self.allobjs)}
+                    donor = self.allobjs[op["donor"]]
+                    op["ids"] = [idx[id(p)] for p in donor.__xpm__.pre_tasks if id(p) in idx]
+                    o.add_pretasks_from(donor)
+                    out.append("ok")
                 elif k == "seal":
                     o.__xpm__.seal(DirectoryContext(Path("/nonexistent/ctx")))
                     out.append("ok")
